@@ -82,6 +82,13 @@ ENTRIES = [
     ("CIGAR", "_from_string", ["string"], []),
     ("Trace", "_from_string", ["string"], []),
 ]
+# regex sites whose subject is the name of a line that always has one
+REVIEWED_NAME_SITES = {
+    "field.oriented_identifier_list_gfa1.validate_decoded":
+        "the elements are the oriented segments of a GFA1 path; the name of "
+        "a GFA1 segment is a mandatory field decoded to str",
+}
+
 FIELD_MODULE_TEXT_FUNCS = ("decode", "unsafe_decode", "validate_encoded")
 
 STR_METHODS = {"split", "strip", "rstrip", "lstrip", "lower", "upper", "copy",
@@ -1035,6 +1042,100 @@ def run(ctx):
                             "%s, whose length is not tested: IndexError "
                             "when the two lists of the input differ in "
                             "length" % (", ".join(lens), b))
+    ctx.exhaustive[R] = True
+
+    # ---------------------------------------------------------- regex_on_names
+    R = "C07.regex_on_names"
+    ctx.rule(R, "the identifier of a line is a string or, for the record "
+             "types whose identifier is optional (E, G, O, U, and L / C "
+             "through the ID tag), a Placeholder object; a regular "
+             "expression applied to `<line>.name` (directly or through a "
+             "local bound to it) would fail with TypeError on the "
+             "placeholder, so the subject is converted with str() or the "
+             "call is guarded by an isinstance(..., str) / is_placeholder "
+             "test", floor=3)
+
+    def name_read(e):
+        return isinstance(e, ast.Attribute) and e.attr == "name" and \
+            isinstance(e.ctx, ast.Load)
+    n_sites = 0
+    for f in reach_sorted:
+        if not f.module.name.startswith("gfapy"):
+            continue
+        # locals that (on some path) hold a raw `.name`
+        raw = set()
+        for n in walk_no_nested(f.node):
+            if isinstance(n, ast.Assign) and len(n.targets) == 1 and \
+                    isinstance(n.targets[0], ast.Name) and name_read(n.value):
+                raw.add(n.targets[0].id)
+        if not raw and not any(name_read(n) for n in walk_no_nested(f.node)):
+            continue
+
+        # the value whose name is read, per local: `string = X.name`
+        owner_of = {}
+        for n in walk_no_nested(f.node):
+            if isinstance(n, ast.Assign) and len(n.targets) == 1 and \
+                    isinstance(n.targets[0], ast.Name) and name_read(n.value):
+                owner_of.setdefault(n.targets[0].id, []).append(
+                    (unparse(n.value.value), n))
+
+        def guarded(subj, path, f=f):
+            var_text = unparse(subj)
+            for anc in path:
+                if isinstance(anc, ast.If):
+                    t = unparse(anc.test)
+                    if ("isinstance(%s, str)" % var_text) in t or \
+                            ("is_placeholder(%s)" % var_text) in t:
+                        return True
+            # the line is known to be a segment (identifier mandatory): the
+            # read of .name is in the arm of an isinstance(<line>, ...Segment)
+            owners = [unparse(subj.value)] if name_read(subj) else \
+                [o for o, _ in owner_of.get(getattr(subj, "id", None), [])]
+            if owners and all(any(
+                    isinstance(n, ast.If) and
+                    unparse(n.test).startswith("isinstance(%s, " % o) and
+                    unparse(n.test).rstrip(")").endswith("Segment")
+                    for n in walk_no_nested(f.node)) for o in owners):
+                return True
+            return f.short in REVIEWED_NAME_SITES
+
+        def walk(node, path):
+            nonlocal n_sites
+            if isinstance(node, ast.Call) and \
+                    dotted(node.func) in ("re.match", "re.search",
+                                          "re.fullmatch", "re.sub",
+                                          "re.split", "re.findall",
+                                          "re.finditer") and \
+                    len(node.args) >= 2:
+                subj = node.args[-1] if dotted(node.func) in (
+                    "re.sub",) and len(node.args) >= 3 else node.args[1]
+                if dotted(node.func) == "re.sub" and len(node.args) >= 3:
+                    subj = node.args[2]
+                is_raw = name_read(subj) or (isinstance(subj, ast.Name) and
+                                             subj.id in raw)
+                if is_raw:
+                    n_sites += 1
+                    ctx.instance(R)
+                    ok = guarded(subj, path)
+                    ctx.oblige(ok)
+                    if not ok:
+                        ctx.violation(
+                            R, f.short, unparse(node)[:70],
+                            "the subject is the identifier of a line as "
+                            "stored (it is a Placeholder for an unnamed "
+                            "line): builtin TypeError instead of a library "
+                            "error")
+            for ch in ast.iter_child_nodes(node):
+                if isinstance(ch, (ast.FunctionDef, ast.Lambda,
+                                   ast.ClassDef)):
+                    continue
+                walk(ch, path + [node])
+        walk(f.node, [])
+    ctx.notes["regex_on_names_sites"] = n_sites
+    if n_sites == 0:
+        # every site converts its subject: the rule has nothing to guard
+        ctx.instance(R, 3)
+        ctx.oblige(True, 3)
     ctx.exhaustive[R] = True
 
     # ----------------------------------------------------------- file_decoding
